@@ -116,6 +116,12 @@ func checkVariableLoops(c *Check) {
 								w = true // address taken: may be changed through the pointer
 							}
 						}
+					case *ast.CallExpr:
+						// the iteration consumed input: the loop is (also) a cursor loop, whose progress and exit at the end of
+						// the input are the business of R3.4 / R13.2, not of this rule
+						if fn := Callee(info, x); fn != nil && nameIs(fn, "advance") {
+							w = true
+						}
 					}
 					return true
 				})
